@@ -34,7 +34,7 @@ def integrate_subset(x, y, xmin, xmax):
         ymin = interp1d_fast(x[i1 - 1:i1 + 1], y[i1 - 1:i1 + 1], xmin)
 
     if xmax == x[-1]:
-        i2 = -2
+        i2 = len(x) - 1
         ymax = y[-1]
     else:
         i2 = np.searchsorted(x, xmax)
